@@ -1316,18 +1316,18 @@ static double maxDiff(const std::vector<double>& a, const std::vector<double>& b
     }
     return d;
 }
-static const int NPARAM = 20;
+static const int NPARAM = 30;
 static void runParam(long i, Src& c) {
     vh::Rng& r = *c.rng;
     int id = (int)(i % NPARAM);
     std::unique_ptr<Rig> g(new Rig());
     int nb = 1 + r.below(3);
-    bool mobility = id <= 6 || id == 18;
+    bool mobility = id <= 6 || id == 18 || id == 20 || id == 26 || id == 27;
     int lastKind = mobility ? 2 + r.below(2) : 0;
     vh::Rng saved = r;                       // to rebuild the identical tree for the topology-level cases
     g->randomTree(r, nb, lastKind);
     MobilizedBody& mb = g->body[nb];
-    std::string key; std::function<void(State&)> change; std::function<void()> topoChange;
+    std::string key; std::function<void(State&)> change; std::function<void()> topoChange; std::function<void(Rig&)> buildFresh;
     Force::MobilityLinearSpring mls; Force::MobilityLinearDamper mld; Force::MobilityConstantForce mcf; Force::MobilityLinearStop mst;
     Force::MobilityDiscreteForce mdf; Force::DiscreteForces df; Force::Gravity gr; Force::LinearBushing lb; Force::UniformGravity ug;
     Force::TwoPointLinearSpring tps;
@@ -1371,14 +1371,45 @@ static void runParam(long i, Src& c) {
     case 16: tps = Force::TwoPointLinearSpring(g->forces, g->body[0], Vec3(A2, 0, 0), mb, Vec3(0, B2, 0), A, 0.5); tps.setDisabledByDefault(true); key = "Force.enable.after_realize";
             change = [&](State& s) { tps.enable(s); }; break;
     case 17: ug = Force::UniformGravity(g->forces, g->matter, Vec3(0, -A, 0), A2); key = "UniformGravity.setGravity.after_realizeTopology";
-            topoChange = [&]() { ug.setGravity(B * dirB); ug.setZeroHeight(B2); }; break;
+            topoChange = [&]() { ug.setGravity(B * dirB); ug.setZeroHeight(B2); };
+            buildFresh = [&](Rig& r2) { Force::UniformGravity(r2.forces, r2.matter, B * dirB, B2); }; break;
     case 18: mls = Force::MobilityLinearSpring(g->forces, mb, MobilizerQIndex(0), A, A2); key = "MobilityLinearSpring.setDefaultStiffness.after_realizeTopology";
-            topoChange = [&]() { mls.setDefaultStiffness(B); mls.setDefaultQZero(B2); }; break;
-    default: gr = Force::Gravity(g->forces, g->matter, UnitVec3(0, -1, 0), A, A2); key = "Gravity.setMagnitudeZeroAndBack.after_realize";
+            topoChange = [&]() { mls.setDefaultStiffness(B); mls.setDefaultQZero(B2); };
+            buildFresh = [&](Rig& r2) { Force::MobilityLinearSpring(r2.forces, r2.body[nb], MobilizerQIndex(0), B, B2); }; break;
+    case 19: gr = Force::Gravity(g->forces, g->matter, UnitVec3(0, -1, 0), A, A2); key = "Gravity.setMagnitudeZeroAndBack.after_realize";
             change = [&](State& s) { gr.setMagnitude(s, 0); g->sys.realize(s, Stage::Dynamics); gr.setMagnitude(s, B); }; break;
+    case 20: mst = Force::MobilityLinearStop(g->forces, mb, MobilizerQIndex(0), A, 0.3, -5, 5); key = "MobilityLinearStop.setDefaults.after_realizeTopology";
+            topoChange = [&]() { mst.setDefaultBounds(-0.01, 0.01); mst.setDefaultMaterialProperties(B, 0.7); };
+            buildFresh = [&](Rig& r2) { Force::MobilityLinearStop(r2.forces, r2.body[nb], MobilizerQIndex(0), B, 0.7, -0.01, 0.01); }; break;
+    case 21: gr = Force::Gravity(g->forces, g->matter, UnitVec3(0, -1, 0), A, A2); key = "Gravity.setDefaults.after_realizeTopology";
+            topoChange = [&]() { gr.setDefaultMagnitude(B); gr.setDefaultDownDirection(UnitVec3(dirB, true)); gr.setDefaultZeroHeight(B2); gr.setDefaultBodyIsExcluded(mb, true); };
+            buildFresh = [&](Rig& r2) { Force::Gravity g2(r2.forces, r2.matter, UnitVec3(dirB, true), B, B2); g2.setDefaultBodyIsExcluded(r2.body[nb], true); }; break;
+    case 22: gr = Force::Gravity(g->forces, g->matter, UnitVec3(0, -1, 0), A, A2); gr.setDefaultBodyIsExcluded(mb, true); key = "Gravity.reincludeBody.after_realize";
+            change = [&](State& s) { gr.setBodyIsExcluded(s, mb, false); }; break;
+    case 23: ug = Force::UniformGravity(g->forces, g->matter, Vec3(0, -A, 0), A2); key = "UniformGravity.setZeroHeight.after_realizeTopology";
+            topoChange = [&]() { ug.setZeroHeight(B2); };
+            buildFresh = [&](Rig& r2) { Force::UniformGravity(r2.forces, r2.matter, Vec3(0, -A, 0), B2); }; break;
+    case 24: lb = Force::LinearBushing(g->forces, g->body[0], Transform(), mb, Transform(), Vec6(A), Vec6(0.5)); key = "LinearBushing.setDefaults.after_realizeTopology";
+            topoChange = [&]() { lb.setDefaultStiffness(Vec6(B)); lb.setDefaultDamping(Vec6(A)); lb.setDefaultFrameOnBody1(Transform(Rotation(0.3, ZAxis), Vec3(A2, B2, 0.1))); lb.setDefaultFrameOnBody2(Transform(Rotation(-0.2, XAxis), Vec3(0.1, A2, B2))); };
+            buildFresh = [&](Rig& r2) { Force::LinearBushing(r2.forces, r2.body[0], Transform(Rotation(0.3, ZAxis), Vec3(A2, B2, 0.1)), r2.body[nb], Transform(Rotation(-0.2, XAxis), Vec3(0.1, A2, B2)), Vec6(B), Vec6(A)); }; break;
+    case 25: df = Force::DiscreteForces(g->forces, g->matter); key = "DiscreteForces.clearAll.after_realize";
+            change = [&](State& s) { df.setOneBodyForce(s, mb, SpatialVec(Vec3(A, B, A2), Vec3(B2, A, B))); df.setOneMobilityForce(s, mb, MobilizerUIndex(0), B);
+                                     g->sys.realize(s, Stage::Dynamics); df.clearAllForces(s); }; break;
+    case 26: mld = Force::MobilityLinearDamper(g->forces, mb, MobilizerUIndex(0), A); key = "MobilityLinearDamper.setDefaultDamping.after_realizeTopology";
+            topoChange = [&]() { mld.setDefaultDamping(B); };
+            buildFresh = [&](Rig& r2) { Force::MobilityLinearDamper(r2.forces, r2.body[nb], MobilizerUIndex(0), B); }; break;
+    case 27: mcf = Force::MobilityConstantForce(g->forces, mb, MobilizerUIndex(0), A); key = "MobilityConstantForce.setDefaultForce.after_realizeTopology";
+            topoChange = [&]() { mcf.setDefaultForce(B); };
+            buildFresh = [&](Rig& r2) { Force::MobilityConstantForce(r2.forces, r2.body[nb], MobilizerUIndex(0), B); }; break;
+    case 28: tps = Force::TwoPointLinearSpring(g->forces, g->body[0], Vec3(A2, 0, 0), mb, Vec3(0, B2, 0), A, 0.5); key = "Force.setDisabledByDefault.after_realizeTopology";
+            topoChange = [&]() { tps.setDisabledByDefault(true); };
+            buildFresh = [&](Rig&) { /* no force at all */ }; break;
+    default: tps = Force::TwoPointLinearSpring(g->forces, g->body[0], Vec3(A2, 0, 0), mb, Vec3(0, B2, 0), A, 0.5); tps.setDisabledByDefault(true); key = "Force.setEnabledByDefault.after_realizeTopology";
+            topoChange = [&]() { tps.setDisabledByDefault(false); };
+            buildFresh = [&](Rig& r2) { Force::TwoPointLinearSpring(r2.forces, r2.body[0], Vec3(A2, 0, 0), r2.body[nb], Vec3(0, B2, 0), A, 0.5); }; break;
     }
     g->topo(); g->randomState(r);
-    if (id == 4 || id == 5) mb.setOneQ(g->s, 0, r.coin() ? 0.7 : -0.6);
+    if (id == 4 || id == 5 || id == 20) mb.setOneQ(g->s, 0, r.coin() ? 0.7 : -0.6);
     std::vector<double> before = observe(*g, g->s), after, fresh;
     if (topoChange) {
         Vector q = g->s.getQ(), u = g->s.getU();
@@ -1387,8 +1418,7 @@ static void runParam(long i, Src& c) {
         after = observe(*g, s1);
         // fresh: an independently constructed identical system whose element is *constructed* with the new values
         Rig g2; vh::Rng again = saved; g2.randomTree(again, nb, lastKind);
-        if (id == 17) Force::UniformGravity(g2.forces, g2.matter, B * dirB, B2);
-        else Force::MobilityLinearSpring(g2.forces, g2.body[nb], MobilizerQIndex(0), B, B2);
+        buildFresh(g2);
         g2.topo(); g2.s.updQ() = q; g2.s.updU() = u;
         fresh = observe(g2, g2.s);
         g->s = s1;
@@ -1410,8 +1440,10 @@ static void runParam(long i, Src& c) {
     case 0: std::printf("I mobSpring %s %s %s\n", hex(B).c_str(), hex(A2).c_str(), hex(q).c_str()); vh::O("mobSpring").d(fm).d(pe).emit(); break;
     case 1: std::printf("I mobSpring %s %s %s\n", hex(A).c_str(), hex(B2).c_str(), hex(q).c_str()); vh::O("mobSpring").d(fm).d(pe).emit(); break;
     case 18: std::printf("I mobSpring %s %s %s\n", hex(B).c_str(), hex(B2).c_str(), hex(q).c_str()); vh::O("mobSpring").d(fm).d(pe).emit(); break;
-    case 2: std::printf("I mobDamper %s %s\n", hex(B).c_str(), hex(u).c_str()); vh::O("mobDamper").d(fm).d(pe).emit(); break;
-    case 3: case 6: std::printf("I mobConst %s\n", hex(B).c_str()); vh::O("mobConst").d(fm).d(pe).emit(); break;
+    case 2: case 26: std::printf("I mobDamper %s %s\n", hex(B).c_str(), hex(u).c_str()); vh::O("mobDamper").d(fm).d(pe).emit(); break;
+    case 20: std::printf("I mobStop %s %s %s %s %s %s\n", hex(B).c_str(), hex(0.7).c_str(), hex(-0.01).c_str(), hex(0.01).c_str(), hex(q).c_str(), hex(mb.getOneQDot(g->s, 0)).c_str());
+            vh::O("mobStop").d(fm).d(pe).emit(); break;
+    case 3: case 6: case 27: std::printf("I mobConst %s\n", hex(B).c_str()); vh::O("mobConst").d(fm).d(pe).emit(); break;
     case 4: std::printf("I mobStop %s %s %s %s %s %s\n", hex(A).c_str(), hex(0.3).c_str(), hex(-0.01).c_str(), hex(0.01).c_str(), hex(q).c_str(), hex(mb.getOneQDot(g->s, 0)).c_str());
             vh::O("mobStop").d(fm).d(pe).emit(); break;
     case 5: std::printf("I mobStop %s %s %s %s %s %s\n", hex(B).c_str(), hex(0.7).c_str(), hex(-0.01).c_str(), hex(0.01).c_str(), hex(q).c_str(), hex(mb.getOneQDot(g->s, 0)).c_str());
